@@ -38,7 +38,7 @@ bool ber_variant(const Bytes &der, Rng &rng, Bytes &out, VariantStats &vs, const
 void xer_strip_trailing_ws(Bytes &b);
 void xer_boundaries(const Bytes &b, std::vector<size_t> &out);
 // seeded XER variant: whitespace and comments between tags, <x/> for empty elements, character references in text
-struct XerVariantStats { unsigned whitespace = 0, comments = 0, emptytags = 0, charrefs = 0; };
+struct XerVariantStats { unsigned whitespace = 0, comments = 0, emptytags = 0, charrefs = 0, attributes = 0; };
 void xer_variant(const Bytes &xer, Rng &rng, Bytes &out, XerVariantStats &vs, bool favour_prolog = false);
 
 #endif
